@@ -234,3 +234,77 @@ one_step!(c03_one_heartbeat_2, 0x18, 2, 5, check_heartbeat);
 one_step!(c03_one_heartbeat_3, 0x18, 3, 5, check_heartbeat);
 one_step!(c03_one_heartbeat_4, 0x18, 4, 5, check_heartbeat);
 one_step!(c03_one_heartbeat_6, 0x18, 6, 5, check_heartbeat);
+
+// ---------------------------------------------------------------------------- handshake list logic
+// parse_tls_record_with_header(type 22) = many1(complete(parse_tls_message_handshake)) with every body
+// parser replaced by the C04 marker stubs: order, count, stop at the first malformed / cut-short
+// message, undecoded tail as remainder; message types and 24-bit length fields symbolic.
+use crate::c04::*;
+use tp::TlsMessageHandshake as HS;
+
+#[kani::proof]
+#[kani::unwind(5)]
+#[kani::stub(tp::parse_tls_handshake_msg_hello_request, st_hello_request)]
+#[kani::stub(tp::parse_tls_handshake_msg_client_hello, st_client_hello)]
+#[kani::stub(tp::parse_tls_handshake_msg_server_hello, st_server_hello)]
+#[kani::stub(tp::parse_tls_handshake_msg_newsessionticket, st_nst)]
+#[kani::stub(tp::parse_tls_handshake_msg_hello_retry_request, st_hrr)]
+#[kani::stub(tp::parse_tls_handshake_msg_certificate, st_cert)]
+#[kani::stub(tp::parse_tls_handshake_msg_serverkeyexchange, st_ske)]
+#[kani::stub(tp::parse_tls_handshake_msg_certificaterequest, st_certreq)]
+#[kani::stub(tp::parse_tls_handshake_msg_serverdone, st_done)]
+#[kani::stub(tp::parse_tls_handshake_msg_certificateverify, st_certverify)]
+#[kani::stub(tp::parse_tls_handshake_msg_clientkeyexchange, st_cke)]
+#[kani::stub(tp::parse_tls_handshake_msg_finished, st_finished)]
+#[kani::stub(tp::parse_tls_handshake_msg_certificatestatus, st_certstatus)]
+#[kani::stub(tp::parse_tls_handshake_msg_key_update, st_keyupdate)]
+#[kani::stub(tp::parse_tls_handshake_msg_next_protocol, st_npn)]
+fn c03_handshake_list_wiring() {
+    let buf: [u8; 9] = kani::any();
+    let n: usize = kani::any();
+    kani::assume(n <= 9);
+    let p = &buf[..n];
+    unsafe {
+        M_FAIL = false;
+    }
+    let h = hdr(0x16, n);
+    let r: Msgs = ManuallyDrop::new(tp::parse_tls_record_with_header(p, &h));
+    // reference: maximal prefix of well-framed messages of known type
+    let mut pos = 0;
+    let mut k = 0;
+    let mut types = [0u8; 3];
+    while pos + 4 <= n {
+        let t = p[pos];
+        let hl = be24(p, pos + 1) as usize;
+        if hl > n - pos - 4 || !is_known(t) {
+            break;
+        }
+        if k < 3 {
+            types[k] = t;
+        }
+        k += 1;
+        pos += 4 + hl;
+    }
+    if k == 0 {
+        vassert!(r.is_err(), "C03.handshake.empty_or_first_message_malformed_or_cut_short.rejected");
+        vcover!(n == 0, "C03.handshake.cover.empty_payload");
+        vcover!(n >= 4, "C03.handshake.cover.first_message_bad");
+    } else {
+        vassert!(r.is_ok(), "C03.handshake.wellformed_prefix.accepted");
+        if let Ok((rem, v)) = &*r {
+            vassert!(v.len() == k, "C03.handshake.message_count");
+            let mut j = 0;
+            while j < v.len() && j < 3 {
+                match &v[j] {
+                    TlsMessage::Handshake(HS::KeyUpdate(id)) => vassert!(*id == types[j], "C03.handshake.messages_in_wire_order"),
+                    TlsMessage::Handshake(HS::EndOfEarlyData) => vassert!(types[j] == 0x05, "C03.handshake.messages_in_wire_order"),
+                    _ => vassert!(false, "C03.handshake.message_kind"),
+                }
+                j += 1;
+            }
+            vassert!(is_sub(p, rem, pos, n - pos), "C03.handshake.two_step_remainder_is_undecoded_tail");
+            vcover!(k == 2 && pos == n, "C03.handshake.cover.two_messages_exact");
+            vcover!(k == 1 && pos < n, "C03.handshake.cover.second_message_malformed_or_cut_short");
+        }
+    }
+}
